@@ -47,8 +47,8 @@ SIG = 'C01/'
 SIG_SQLITE_L0 = 'C01/background-inside-extent/sqlite-level0'
 SIG_SMALL_QUADS = 'C01/misplaced/mesh-quads-under-50px-unchecked'
 MESH_EXPOSURE_LIMIT = 0.5
-QUICK_CONFIGS = 400
-THOROUGH_CONFIGS = 8000
+QUICK_CONFIGS = 800
+THOROUGH_CONFIGS = 24000
 
 
 # ------------------------------------------------------------------------------------------------------
@@ -600,15 +600,15 @@ def check_pixels(gnd, arr, px, py, bbox, size, srs, rho, eps=3.0):
     worst = excess.max(axis=1)
     return np.nonzero(worst > 0)[0], worst
 
-def is_background(px, bg):
+def is_background(px, bg, tol=4):
     """px: [N,4] uint8.  Background = (nearly) transparent, or opaque white, or opaque requested BGCOLOR."""
     a = px[:, 3].astype(int)
     rgb = px[:, :3].astype(int)
     transparent = a <= 10
-    white = (a >= 245) & (rgb >= 250).all(axis=1)
+    white = (a >= 245) & (rgb >= 254 - tol).all(axis=1)
     res = transparent | white
     if bg is not None:
-        res |= (a >= 245) & (np.abs(rgb - np.asarray(bg)[None, :]) <= 4).all(axis=1)
+        res |= (a >= 245) & (np.abs(rgb - np.asarray(bg)[None, :]) <= tol).all(axis=1)
     return res
 
 
@@ -677,7 +677,7 @@ def check_map(spec, chain, req, gnd, arr, vm, st_):
     rho = vm['rho']
     cls = classify_pixels(chain, req, edge_margin(spec, chain, vm), px, py)
     got = arr[py, px, :]
-    bg = is_background(got, parse_bg(req['bgcolor']))
+    bg = is_background(got, parse_bg(req['bgcolor']), tol=14 if spec.get('paletted') else 4)
     ins = cls == 1
     outs = cls == -1
     st_.extra['pixels_judged'] = st_.extra.get('pixels_judged', 0) + int(ins.sum() + outs.sum())
@@ -702,15 +702,16 @@ def check_map(spec, chain, req, gnd, arr, vm, st_):
                     '%d sampled pixels wholly inside the layer extent are partly transparent, e.g. pixel (%d, %d) = %r'
                     % (int(semi.sum()), px[i], py[i], got[i].tolist()))
         idx = np.nonzero(ins)[0]
-        rej, worst = check_pixels(gnd, arr, px[idx], py[idx], req['bbox'], size, req['srs'], rho=rho, eps=3.0)
+        eps = 16.0 if spec.get('paletted') else 3.0
+        rej, worst = check_pixels(gnd, arr, px[idx], py[idx], req['bbox'], size, req['srs'], rho=rho, eps=eps)
         if len(rej):
             k = int(rej[np.argmax(worst[rej])])
             i = idx[k]
             lo, hi, _ = expected_interval(gnd, px[i:i + 1], py[i:i + 1], req['bbox'], size, req['srs'], rho)
             return ('misplaced',
-                    '%d of %d sampled pixels do not show the ground within rho=%.2f px (eps 3): worst pixel (%d, %d) '
+                    '%d of %d sampled pixels do not show the ground within rho=%.2f px (eps %d): worst pixel (%d, %d) '
                     'shows %r, expected within [%s .. %s] (excess %.1f levels)'
-                    % (len(rej), len(idx), rho, px[i], py[i], got[i][:3].tolist(),
+                    % (len(rej), len(idx), rho, eps, px[i], py[i], got[i][:3].tolist(),
                        np.round(lo[0]).astype(int).tolist(), np.round(hi[0]).astype(int).tolist(), float(worst[k])))
     return None
 
@@ -876,6 +877,8 @@ def request_classes(spec, chain, req, vm):
         cl.append('upstream-tiles:' + s['kind'])
     if s.get('coverage'):
         cl.append('coverage')
+    if spec.get('paletted'):
+        cl.append('paletted-eps16')
     for c in chain['caches']:
         cl.append('backend:' + c['backend']['type'])
     for g in chain['grids']:
@@ -961,7 +964,7 @@ def run_view(dep, case, k, rd, gnd, st_, open_sigs=frozenset()):
         else:
             judged = True
             problem = check_map(spec, chain, req, gnd, arr, vm, st_)
-            if problem is None and req['tile'] is not None:
+            if problem is None and req['tile'] is not None and not spec.get('paletted'):
                 problem = check_roundtrip(dep, spec, chain, req, gnd, arr, st_, vm)
     fi_done = 0
     if problem is None and chain['queryable']:
